@@ -400,7 +400,16 @@ def run(tier):
     okv = bool(some_const) and all("get_expr(constants*, self*:Ident.0):Some.0" in M.describe(p.state, p.ret[3][0]) for p in some_const)
     rep.ob("C10.bound|value", okv, "a bound identifier evaluates to the looked-up value itself" if okv else "a bound identifier does not evaluate to its looked-up value")
     bound_identifier_errors(P, rep, "C10.bound|no-other-error", idp)
+    # the conversion of an operand into a register, by role: the method of the operand type that asks the alias table
     fn = "instruction::InstructionOps::get_r8"
+    if fn not in P.body:
+        cands = [k for k in sorted(P.body) if re.match(r"^instruction::InstructionOps::[^:{]+$", k) and
+                 any(n_.endswith("Context::get_def") or n_.endswith("::get_def") for _, t_, n_, _ in P.call_sites(k))]
+        if len(cands) == 1:
+            fn = cands[0]
+    if fn not in P.body:
+        rep.unprovable("C10.alias|anchor", "the method that turns an operand into a register (it asks the .def table) was not found")
+        return
     M = absint.Machine(P, max_depth=4)
     paths = M.explore(fn, M.arg_unknowns(fn))
     # the discriminant of the Option that get_def returned (not the register inside a Some, whose number may be 0 as well)
